@@ -55,7 +55,8 @@ META = {
         'exec of the config file text (config.py:process_file); Mod/Param/Group calls are modelled, arbitrary Python in a file is not',
         'Parameter.finish for `constant`, applyMainUnit ($ units), Command accessibles in the cfg, `datatype` given in the cfg',
         'mandatory properties of Parameter objects (description/datatype): always present in generated classes',
-        'Server._processCfg sys.exit(1): observed as "SecNode.errors non-empty" (subprocess run in thorough tier)',
+        'Server._processCfg sys.exit(1): observed as "SecNode.errors non-empty"; the real Server._processCfg runs in a '
+        'subprocess for one good and one bad configuration only',
         'Server.restart: observed as a second SecNode built from the same module_cfg objects (what _processCfg does)',
     ],
     'assumptions': ['configuration dicts have unique keys (Python dict)',
@@ -1361,8 +1362,9 @@ def corpus_cases(ctx):
 
 
 def subprocess_exit_check(ctx, res):
-    """thorough tier: the real `Server._processCfg` in a subprocess: exit status and stderr of a good configuration and
-    of one with two failing modules; the node-level monitor judges (starts iff nothing reported, all failing reported)"""
+    """the real `Server._processCfg` in a subprocess: exit status and stderr of a good configuration (processed twice by the
+    same Server object, as `Server.run` does after `restart`) and of one with two failing modules; the node-level monitor
+    judges (starts iff nothing reported, all failing reported)"""
     import subprocess
     base = tempfile.mkdtemp(prefix='verif-c10-srv-')
     try:
@@ -1375,7 +1377,8 @@ def subprocess_exit_check(ctx, res):
                 "from frappy.lib import generalConfig; generalConfig.testinit(piddir=Path(sys.argv[1]).parent)\n"
                 "from frappy.server import Server\nimport mlzlog\n"
                 "srv = Server('x', mlzlog.MLZLogger('x'), cfgfiles=[sys.argv[1]], interface='tcp://5000', testonly=True)\n"
-                "srv._processCfg()\nprint('REGISTERED', ' '.join(srv.secnode.modules))\n")
+                "srv._processCfg()\nprint('REGISTERED', ' '.join(srv.secnode.modules))\n"
+                "srv._processCfg()\nprint('REGISTERED2', ' '.join(srv.secnode.modules))\n")
         for tag, (mods, _) in cases.items():
             p = os.path.join(base, f'{tag}_cfg.py')
             with open(p, 'w') as f:
@@ -1386,8 +1389,11 @@ def subprocess_exit_check(ctx, res):
             out = pr.stdout.decode(errors='replace')
             configured = re.findall(r"Mod\('(\w+)'", mods)
             registered = []
+            second = None
             for line in out.splitlines():
-                if line.startswith('REGISTERED'):
+                if line.startswith('REGISTERED2'):
+                    second = line.split()[1:]
+                elif line.startswith('REGISTERED'):
                     registered = line.split()[1:]
             reported = sorted(set(re.findall(r'error creating (?:module )?(\w+)', err)))
             if pr.returncode != 0 and not reported:
@@ -1399,6 +1405,15 @@ def subprocess_exit_check(ctx, res):
             res.evaluations += 1
             res.traces += 1
             res.count(f'subprocess.{tag}.exit={pr.returncode}')
+            if pr.returncode == 0:
+                # the second _processCfg of the same Server object: again every module, nothing reported
+                obs2 = dict(obs, registered=second or [])
+                a2 = ctx.driver.batch([dict(obs2, p='C10', k='judge_node')])[0]
+                res.evaluations += 1
+                res.traces += 1
+                res.count(f'subprocess.{tag}.second-start.registered={len(obs2["registered"])}')
+                if not a2.get('ok'):
+                    a, obs = a2, obs2
             if not a.get('ok'):
                 res.violations.append({'sig': 'C10:processCfg-exit', 'what': f'Server._processCfg ({tag} cfg): exit {pr.returncode}, {obs}',
                                        'case': {'kind': 'subprocess', 'tag': tag}})
@@ -1653,7 +1668,7 @@ def run(ctx):
     res.notes.append(f'observation O01 (not demanded by the statement): {O01} registered modules had a configured value outside '
                      f'the limits: it is cached as start value, write_<p> is called once and refuses it (RangeError logged), the '
                      f'driver function is not reached')
-    if (ctx.tier == 'thorough' or os.environ.get('VERIF_C10_SUBPROCESS')) and not ctx.escalated:
+    if not ctx.escalated and not os.environ.get('VERIF_C10_NO_SUBPROCESS'):
         try:
             subprocess_exit_check(ctx, res)
         except subprocess_errors() as e:
